@@ -75,6 +75,13 @@ def teardown():
 WIT = {"g": [[], [], [0, 1], [2], [1], [3, 4]], "ch": [[], [], [1], [3], [4], [1]], "late": [1, 4, 5]}
 U_A = {"g": [[], [0], [1], [0], [2, 3], [4, 49], [48, 5], [6]],
        "ch": [[], [1], [3, 5], [4, 6], [1, 7], [5], [], [1, 3, 4]], "late": []}
+# a hole: r1 reaches the source after the targets were seeded with r2 (and r0): the revisions a later fetch
+# must copy ({r1} and {r3, r4}) are not connected
+U_H = {"g": [[], [0], [1], [2], [3]], "ch": [[], [1], [3], [4], [1, 5]], "late": [1]}
+# a sparse source (cut out of a larger history): r46 introduced the files and is a ghost of the source, r47
+# (child of r1) too; r0 and r2 still reference texts named after them, and the source holds those texts
+U_S = {"g": [[46], [0], [1, 47], [2]], "ch": [[1], [3], [4], [1]], "late": [],
+       "gdef": {"46": {"ps": [], "ch": []}, "47": {"ps": [1], "ch": [1, 3, 6]}}}
 U_B = {"g": [[], [0], [0], [1, 2], [2, 1], [3, 4], [4, 3, 50]], "ch": [[], [1], [3], [4], [6], [1, 5], [7]], "late": []}
 
 
@@ -100,6 +107,18 @@ def corpus():
     out.append(_case(U_A, seed=[3], r=48, extra=[48], fg=True))
     out.append(_case(U_A, "2a", "pack-0.92", seed=[7]))    # nothing missing: no incompatibility error
     out.append(_case(U_B, seed=[1], r=6, entry="pull"))
+    for sf, tf in (("2a", "2a"), ("pack-0.92", "pack-0.92"), ("pack-0.92", "2a")):
+        for sv, tv in (("smart", "local"), ("local", "smart"), ("local", "local")):
+            out.append(_case(U_H, sf, tf, sv, tv, seed=[2, 0], r=4, fg=True))      # disconnected search result
+    out.append(_case(U_H, sv="smart", seed=[2], r=4, fg=True))
+    out.append(_case(U_H, sv="smart", seed=[2, 0], r=3, fg=False))
+    out.append(_case(U_H, sv="smart", seed=[2, 0], r=0, entry="all"))
+    out.append(_case(U_H, sv="smart", tv="smart", seed=[3], r=0, entry="all"))
+    for sf, tf in (("pack-0.92", "pack-0.92"), ("2a", "2a"), ("pack-0.92", "2a")):
+        out.append(_case(U_S, sf, tf, r=3))                                   # texts named after a ghost of the source
+        out.append(_case(U_S, sf, tf, "smart", "local", seed=[1], r=3, fg=True))
+        out.append(_case(U_S, sf, tf, seed=[0], r=2, extra=[46], entry="pull"))
+    out.append(_case(U_S, fb=[0], r=3, tv="smart"))
     out.append(_case(U_B, seed=[1], r=0, entry="all"))
     out.append(_case(U_A, fb=[2], r=0, entry="all", fg=True))
     out.append(_case(U_A, "pack-0.92", "2a", seed=[3], r=0, entry="all"))
@@ -145,7 +164,12 @@ def _random_case(rng, u, pairs=FMT_PAIRS):
             fb.append(rng.choice(early))
     elif rng.random() < 0.85:
         seed = sorted(set(rng.choice(early) for _ in range(rng.choice([1, 1, 2]))))
-    extra = [rng.choice(ghosts)] if ghosts and rng.random() < 0.25 else []
+    gdef = u.get("gdef") or {}
+    if gdef:
+        ghosts_x = [int(k) for k, v in gdef.items() if not v["ps"]]
+    else:
+        ghosts_x = ghosts
+    extra = [rng.choice(ghosts_x)] if ghosts_x and rng.random() < 0.25 else []
     x = rng.random()
     if x < 0.06 and ghosts:
         r = rng.choice(ghosts)
@@ -154,6 +178,9 @@ def _random_case(rng, u, pairs=FMT_PAIRS):
     else:
         r = rng.randrange(n)
     fg = rng.random() < 0.4
+    if late and rng.random() < 0.35:
+        # unclosed target: the search result may be disconnected; the smart source replays the search recipe
+        fg, sv, tv = True, "smart", rng.choice(["local", "local", "smart"])
     entry = "fetch"
     if r < n and not late and daglib.lefthand_present(g, r) and not (sf == "2a" and tf != "2a") and rng.random() < 0.4:
         entry = rng.choice(["pull", "push"])
@@ -171,7 +198,10 @@ def _random_case(rng, u, pairs=FMT_PAIRS):
 def cases(rng, tier):
     nuniv, per, maxn = (6, 8, 9) if tier == "quick" else (40, 14, 14)
     for k in range(nuniv):
-        u = C.gen_universe(rng, rng.randint(3, maxn), p_late=0.35, p_ghost=0.12)
+        if k % 3 == 2:
+            u = C.gen_sparse_universe(rng, rng.randint(3, maxn))
+        else:
+            u = C.gen_universe(rng, rng.randint(3, maxn), p_late=0.35, p_ghost=0.12)
         pairs = FMT_PAIRS if k % 2 == 0 else [("2a", "2a")] * 3 + [("pack-0.92", "2a"), ("2a", "pack-0.92")]
         for _ in range(per):
             yield _random_case(rng, u, pairs)
